@@ -6,52 +6,11 @@ import sys
 sys.path.insert(0, "/verif")
 
 
-class _Renamer(ast.NodeTransformer):
-    def __init__(self, names, suffix):
-        self.names, self.suffix = names, suffix
-
-    def visit_Name(self, n):
-        if n.id in self.names:
-            return ast.copy_location(ast.Name(id=n.id + self.suffix, ctx=n.ctx), n)
-        return n
-
-
-def _locals_of(fn):
-    a = fn.args
-    params = {x.arg for x in a.args + a.kwonlyargs + a.posonlyargs}
-    if a.vararg:
-        params.add(a.vararg.arg)
-    if a.kwarg:
-        params.add(a.kwarg.arg)
-    glob, loc, nested_params = set(), set(), set()
-    for n in ast.walk(fn):
-        if isinstance(n, (ast.Global, ast.Nonlocal)):
-            glob |= set(n.names)
-        if isinstance(n, ast.Name) and isinstance(n.ctx, ast.Store):
-            loc.add(n.id)
-        if n is not fn and isinstance(n, (ast.FunctionDef, ast.Lambda)):
-            b = n.args
-            for x in b.args + b.kwonlyargs + b.posonlyargs:
-                nested_params.add(x.arg)
-    return loc - params - glob - nested_params - {"_"}
-
-
-def rename_module(src: str, suffix: str = "_x") -> str:
-    tree = ast.parse(src)
-
-    def do(node):
-        for ch in ast.iter_child_nodes(node):
-            if isinstance(ch, (ast.FunctionDef, ast.AsyncFunctionDef)):
-                _Renamer(_locals_of(ch), suffix).visit(ch)
-            else:
-                do(ch)
-
-    do(tree)
-    return ast.unparse(tree) + "\n"
+from ghverif.selftest import _Renamer  # noqa: E402
 
 
 def rename_sources(sources: dict, suffix: str = "_x") -> dict:
-    return {m: (s if m.startswith(("schema:", "file:")) else rename_module(s, suffix)) for m, s in sources.items()}
+    return {m: (s if m.startswith(("schema:", "file:")) else _Renamer.module(s, suffix)) for m, s in sources.items()}
 
 
 if __name__ == "__main__":
